@@ -270,6 +270,17 @@ Section Proofs.
     backtest step summarise s (processed (run s feed) ++ rest') = backtest step summarise s feed.
   Proof. intros s feed rest' H. unfold backtest. rewrite (run_ignores_rest feed s H rest'). reflexivity. Qed.
 
+  (** a batch returns, at position i, the summary of the i-th backtest's own run — and one
+      result per argument set *)
+  Theorem batch_positional : forall s0 (feeds : list (list ev)) i,
+    nth_error (run_backtests step summarise s0 feeds) i =
+      option_map (backtest step summarise s0) (nth_error feeds i).
+  Proof. intros. unfold run_backtests. apply nth_error_map. Qed.
+
+  Theorem batch_length : forall s0 (feeds : list (list ev)),
+    length (run_backtests step summarise s0 feeds) = length feeds.
+  Proof. intros. unfold run_backtests. apply map_length. Qed.
+
   (* ---------------------------------------------------------------------------------- *)
   (** * the executable merge produces admissible feeds *)
 
